@@ -966,4 +966,28 @@ theorem regression_ds_signed_by_owner :
     validate (envForeign traceDsByOwner) 27 0 qPU = .ok { rcode := 0, an := [bog' dsX, sigX], ns := [], ad := [] } := by
   decide
 
+/-! ## the DS → DNSKEY link: the concrete shape of `covers` -/
+
+/-- **`covers` links a key only through its FULL digest**: `dsCovers` is true iff the key is a zone key, the digest type is
+supported, and the DS digest *equals* the digest of the key — hence has its length; a truncated (in the extreme empty) or
+extended digest never covers.  (`dsCovers` is compared with the real `DS::covers` by the `covers` lines of the
+correspondence run; in the chain theorems `covers` stays a parameter of which this is the instance.) -/
+theorem covers_iff_full_digest (zoneKey : Bool) (hash : Option Bytes) (digest : Bytes) :
+    dsCovers zoneKey hash digest = true ↔ zoneKey = true ∧ hash = some digest := by
+  unfold dsCovers
+  cases hash with
+  | none => simp
+  | some h => simp
+
+theorem covers_same_length {zoneKey : Bool} {h digest : Bytes} (hc : dsCovers zoneKey (some h) digest = true) :
+    digest.length = h.length := by
+  have := (covers_iff_full_digest zoneKey (some h) digest).mp hc
+  injection this.2 with heq
+  rw [heq]
+
+/-- a proper prefix of the digest does not cover -/
+example : dsCovers true (some [1, 2, 3, 4]) [1, 2] = false ∧ dsCovers true (some [1, 2, 3, 4]) [] = false ∧
+    dsCovers true (some [1, 2, 3, 4]) [1, 2, 3, 4, 0] = false ∧ dsCovers true (some [1, 2, 3, 4]) [1, 2, 3, 4] = true := by
+  decide
+
 end HickoryVerif.C07
